@@ -222,7 +222,7 @@ def check_rechunk(case) -> Outcome:
     labels = {"rechunk-case", "irregular-allowed" if case["allow_irregular"] else "regular-only"}
     spec0, budget = c14._mk_spec(case)
     ts = H.TraceStore(MemoryStore())
-    kw = dict(intermediate_store=ts, allowed_mem=spec0.allowed_mem, reserved_mem=0)
+    kw = dict(intermediate_store=ts, allowed_mem=spec0.allowed_mem, reserved_mem=spec0.reserved_mem)
     if case["compressor"] == "none":
         kw["zarr_compressor"] = None
     spec = cubed.Spec(**kw)
